@@ -501,6 +501,10 @@ class AstToDjangoQVisitor(visitor.NodeVisitor):
         if isinstance(node, (Q, Exists)):
             return node
 
+        if isinstance(node, F):
+            # A bare field is not a condition, Django cannot filter on it:
+            raise ex.TypeException("filter", str(node))
+
         if not DJANGO_LT_4:
             return Q(node)
 
